@@ -121,7 +121,7 @@ pub fn evaluate(prop: &str, d: &RunData) -> (Vec<Violation>, Vec<Violation>) {
         all.extend(crate::seq::o_seq(d));
         all.extend(oracle::o_drops(&a));
         all.extend(oracle::o_delivery(&a));
-        let owned = ["model/diff", "panic/undocumented", "ledger/", "hang/"];
+        let owned = ["model/diff", "panic/undocumented", "ledger/", "hang/", "wait/"];
         return all.into_iter().partition(|x| owned.iter().any(|p| x.sig.starts_with(p)));
     }
     oracle::evaluate(prop, d)
